@@ -89,6 +89,84 @@ pub fn run_csr_case(case: &Value, idx: usize, seed: u64, pool: &mut KeyPool, out
 	}
 }
 
+pub fn run_csr_random(out_path: &str, n: usize) {
+	let seed = seed_from_env();
+	let mut out = Out::create(out_path);
+	let mut pool = KeyPool::new(3);
+	let mut rng = Rng::new(seed ^ 0xc5a);
+	let algs = ["ed25519", "ed25519", "ecdsa-p256-sha256", "ecdsa-p384-sha384", "rsa-sha256", "rsa-sha384", "rsa-sha512", "ecdsa-p521-sha512"];
+	let attr_pool = [
+		json!({"oid": "1.2.840.113549.1.9.7", "values": "31040c027077"}),
+		json!({"oid": "1.2.840.113549.1.9.7", "values": "31050c03707732"}),
+		json!({"oid": "1.2.840.113549.1.9.2", "values": "311b0c19612d6c6f6e672d756e737472756374757265642d6e616d652e"}),
+		json!({"oid": "1.3.6.1.4.1.55555.9", "values": "3103020105"}),
+		json!({"oid": "2.999.3", "values": "3100"}),
+		json!({"oid": "1.3.6.1.4.1.55555.9", "values": "310804020102040203ff"}),
+	];
+	for i in 0..n {
+		let mut p = random_params(&mut rng);
+		// a request cannot express these; keep them unset in 4 of 5 cases so that most cases produce a request
+		if !rng.chance(1, 5) {
+			p["serial"] = json!({"k": "auto", "b": []});
+			p["isCa"] = json!({"k": "NoCa", "pl": {"k": "none", "n": 0}});
+			p["nc"] = json!({"k": "none", "perm": [], "excl": []});
+			p["crldp"] = json!([]);
+			p["aki"] = json!(false);
+		}
+		let attrs: Vec<Value> = (0..rng.below(5)).map(|_| rng.pick(&attr_pool).clone()).collect();
+		let c = json!({"grp": "csr-random", "_id": format!("csr-random/{}/{}", seed, i), "params": p, "attrs": attrs, "alg": rng.pick(&algs)});
+		run_csr_case(&c, i, seed, &mut pool, &mut out);
+	}
+	out.finish();
+}
+
+pub fn run_crl_random(out_path: &str, n: usize) {
+	let seed = seed_from_env();
+	let mut out = Out::create(out_path);
+	let mut pool = KeyPool::new(3);
+	let mut rng = Rng::new(seed ^ 0xc81);
+	let algs = ["ed25519", "ed25519", "ecdsa-p256-sha256", "ecdsa-p384-sha384", "rsa-sha256", "rsa-sha384", "rsa-sha512"];
+	let kids = [json!({"k": "sha256", "b": []}), json!({"k": "sha384", "b": []}), json!({"k": "sha512", "b": []}), json!({"k": "pre", "b": [7, 7, 7]}), json!({"k": "pre", "b": []})];
+	for i in 0..n {
+		let this = random_time(&mut rng);
+		let next = if rng.chance(1, 6) { random_time(&mut rng) } else {
+			// usually later than thisUpdate: same fields, later year (or a few seconds later)
+			let mut t = this.clone();
+			if rng.chance(1, 4) {
+				let s = t["s"].as_i64().unwrap();
+				t["s"] = json!((s + rng.range(0, 2)).min(59));
+				t["ns"] = json!(rng.below(1_000_000_000));
+			} else {
+				t["y"] = json!((t["y"].as_i64().unwrap() + rng.range(1, 3)).min(9999));
+				if t["mo"] == 2 && t["d"] == 29 {
+					t["d"] = json!(28);
+				}
+			}
+			t
+		};
+		let revoked: Vec<Value> = (0..rng.below(5))
+			.map(|_| {
+				let n = rng.below(21) as usize;
+				json!({"serial": bytes_json(&rng.bytes(n)), "time": random_time(&mut rng),
+					"reason": if rng.chance(1, 2) { json!({"k": "some", "code": *rng.pick(&[0u64, 1, 2, 3, 4, 5, 6, 8, 9, 10])}) } else { json!({"k": "none", "code": 0}) },
+					"invalidity": if rng.chance(1, 2) { json!({"k": "some", "t": random_time(&mut rng)}) } else { json!({"k": "none", "t": this.clone()}) }})
+			})
+			.collect();
+		let idp = if rng.chance(1, 3) {
+			json!({"k": "some", "uris": (0..1 + rng.below(3)).map(|_| json!(hex(random_text("ascii-graphic", &mut rng, 30).as_bytes()))).collect::<Vec<_>>(), "scope": rng.pick(&["none", "user", "ca"])})
+		} else {
+			json!({"k": "none", "uris": [], "scope": "none"})
+		};
+		let nn = rng.below(21) as usize;
+		let ku: Vec<Value> = if rng.chance(1, 2) { vec![] } else { (0..1 + rng.below(4)).map(|_| json!(rng.below(9))).collect() };
+		let c = json!({"grp": "crl-random", "_id": format!("crl-random/{}/{}", seed, i),
+			"params": {"thisUpdate": this, "nextUpdate": next, "crlNumber": bytes_json(&rng.bytes(nn)), "idp": idp, "revoked": revoked, "kid": rng.pick(&kids)},
+			"issuerKu": ku, "issuerDn": random_dn(&mut rng, 4), "alg": rng.pick(&algs), "issuerKid": rng.pick(&kids)});
+		run_crl_case(&c, i, seed, &mut pool, &mut out);
+	}
+	out.finish();
+}
+
 pub fn run_csr_cases(cases_path: &str, out_path: &str) {
 	let seed = seed_from_env();
 	let cases = read_ndjson(cases_path);
